@@ -738,7 +738,9 @@ rejected line between accepted ones and a line the normaliser changes.",
 --tag-scores; same oracle",
         false,
         (0..5u8).map(|k| {
-            let mc = crate::checks::c14::large_model(&crate::checks::c14::LargeCase { n_tag_models: 60, n_char_ngrams: 200, n_words: 20, n_long_words: 0, long_text: 0 });
+            // (the model of case 1 is larger than 1 MB: more than any buffer between the
+            // program and its zstd decoder)
+            let mc = crate::checks::c14::large_model(&crate::checks::c14::LargeCase { n_tag_models: 60, n_char_ngrams: if k == 1 { 70_000 } else { 200 }, n_words: 20, n_long_words: 0, long_text: 0 });
             let ch = |i: usize| char::from_u32(0x4E00 + (i % 120) as u32).unwrap();
             let lines: Vec<String> = match k {
                 0 | 1 => (0..3000usize)
@@ -793,10 +795,14 @@ Non-trivial = --part and --dict files present.",
             n,
             || {
                 use proptest::prelude::*;
-                prop_oneof![
-                    1 => vcommon::train::train_case(vcommon::train::TrainGenCfg { max_sentences: 6, max_len: 8, tame: false, tag_dict: true, tag_focus: false }),
-                    1 => vcommon::train::train_case(vcommon::train::TrainGenCfg { max_sentences: 8, max_len: 8, tame: false, tag_dict: true, tag_focus: true }),
-                ]
+                (
+                    prop_oneof![
+                        1 => vcommon::train::train_case(vcommon::train::TrainGenCfg { max_sentences: 6, max_len: 8, tame: false, tag_dict: true, tag_focus: false }),
+                        1 => vcommon::train::train_case(vcommon::train::TrainGenCfg { max_sentences: 8, max_len: 8, tame: false, tag_dict: true, tag_focus: true }),
+                    ],
+                    any::<u16>(),
+                )
+                    .prop_map(|(c, salt)| if salt % 2 == 0 { vcommon::train::with_whitespace_tokens(c, salt) } else { c })
             },
             test_train,
         );
